@@ -197,6 +197,30 @@ class FromMatchpyExpressionMapper(BaseMatchPyMapper):
 # }}}
 
 
+def from_matchpy_substitution(subst, from_matchpy_expr: m.FromMatchpyT):
+    """Convert the values of a matchpy substitution: an expression for a dot
+    wildcard, a :class:`tuple` (non-commutative) or a
+    :class:`multiset.Multiset` (commutative) of expressions for a sequence
+    wildcard.
+    """
+    result = {}
+
+    for name, arg in subst.items():
+        if isinstance(arg, MatchpyExpression):
+            arg = from_matchpy_expr(arg)
+        elif isinstance(arg, multiset.Multiset):
+            arg = multiset.Multiset({from_matchpy_expr(expr): count
+                                     for expr, count in arg.items()})
+        elif isinstance(arg, tuple):
+            arg = tuple(from_matchpy_expr(el) for el in arg)
+        else:
+            raise NotImplementedError(f"Cannot convert back {type(arg)}")
+
+        result[name] = arg
+
+    return result
+
+
 @dataclass(frozen=True, eq=True)
 class ToFromReplacement:
     f: Callable[..., p.Expression]
@@ -204,21 +228,7 @@ class ToFromReplacement:
     from_matchpy_expr: m.FromMatchpyT
 
     def __call__(self, **kwargs):
-        kwargs_to_f = {}
-
-        for kw, arg in kwargs.items():
-            if isinstance(arg, MatchpyExpression):
-                arg = self.from_matchpy_expr(arg)
-            elif isinstance(arg, multiset.Multiset):
-                arg = multiset.Multiset({self.from_matchpy_expr(expr): count
-                                         for expr, count in arg.items()})
-            elif isinstance(arg, tuple):
-                arg = tuple(self.from_matchpy_expr(el) for el in arg)
-            else:
-                raise NotImplementedError(f"Cannot convert back {type(arg)}")
-
-            kwargs_to_f[kw] = arg
-
+        kwargs_to_f = from_matchpy_substitution(kwargs, self.from_matchpy_expr)
         return self.to_matchpy_expr(self.f(**kwargs_to_f))
 
 # vim: foldmethod=marker
